@@ -609,6 +609,16 @@ func (fv *FuncVerifier) evalSpecHelper(fn *types.Func, call *ast.CallExpr, st *S
 		a := fv.eval(call.Args[0], st)
 		b := fv.eval(call.Args[1], st)
 		return []Term{errIs(a, b)}
+	case "__recvs":
+		// number of channel receives executed since the verified function was entered
+		return []Term{fv.recvCount(st)}
+	case "__recvval":
+		// the i-th value received (type given by the instantiation)
+		es := fv.sortOf(fv.typeOf(call))
+		if es == nil {
+			reject("__recvval of an unmodelled type")
+		}
+		return []Term{fv.recvVal(es, fv.eval(call.Args[0], st))}
 	case "__seen":
 		if len(fv.seenStack) == 0 {
 			reject("__seen outside a map range loop invariant")
